@@ -61,7 +61,7 @@ def main():
             guard="wilfred_garden_verif",
             enable="RUSTFLAGS='--cfg wilfred_garden_verif' CARGO_TARGET_DIR=/verif/.build/target "
                    "CARGO_PROFILE_DEV_OPT_LEVEL=1 cargo build --offline --bin garden   (done by every ./check run)",
-            baseline_off_cmd="cd /repo && cargo test --workspace --no-fail-fast --offline",
+            baseline_off_cmd="cd /repo && cargo test --workspace --no-fail-fast --offline -- --test-threads 8",
             source_commits=[c.split()[0] for c in commits],
             add_only=True,
         ),
